@@ -50,6 +50,27 @@ def oSignTok (k : TokKind) (v : Int) : Option Sign :=
   | .i128 | .u128 | .other => none
   | _ => oSign v
 
+def showKind : Kind → String
+  | .tuple2 => "tuple2" | .i8 => "i8" | .seq => "seq" | .u32 => "u32"
+
+/-- run-length rendering used by the harness: `seq,u32*3` (`-` for none) -/
+def showKinds (ks : List Kind) : String :=
+  let rec go (ks : List Kind) (cur : Option (Kind × Nat)) (acc : List String) : List String :=
+    match ks, cur with
+    | [], none => acc.reverse
+    | [], some (k, n) => ((if n > 1 then showKind k ++ "*" ++ toString n else showKind k) :: acc).reverse
+    | k :: r, none => go r (some (k, 1)) acc
+    | k :: r, some (c, n) =>
+      if k == c then go r (some (c, n + 1)) acc
+      else go r (some (k, 1)) ((if n > 1 then showKind c ++ "*" ++ toString n else showKind c) :: acc)
+  let l := go ks none []
+  if l.isEmpty then "-" else ",".intercalate l
+
+/-- independent statement of the hint sequence: it mirrors the serialized shape `(i8, [u32; n])` / `[u32; n]` -/
+def oHintsU (n : Nat) : String := if n = 0 then "seq" else if n = 1 then "seq,u32" else "seq,u32*" ++ toString n
+def oHintsI (v : Int) (n : Nat) : String :=
+  if v = -1 ∨ v = 0 ∨ v = 1 then "tuple2,i8," ++ oHintsU n else "tuple2,i8"
+
 def handle (op : String) (args : List String) : Option (String × String) :=
   match op, args with
   | "u.ser", [a] => do
@@ -117,6 +138,32 @@ def handle (op : String) (args : List String) : Option (String × String) :=
     let sg ← (match s.toList with | [c] => parseSign c | _ => none)
     pure ("ok i8:" ++ showInt (serSign sg),
           "ok i8:" ++ showInt (match sg with | .minus => -1 | .nosign => 0 | .plus => 1))
+  | "u.de_hints", [w] => do
+    let w ← parseWords w
+    pure ("ok " ++ showLimbs (de none w) ++ " ; " ++ showKinds (deHintsU w),
+          "ok " ++ showLimbs (ofNat (valBase W w)) ++ " ; " ++ oHintsU w.length)
+  | "u.de_hints", [w, h] => do
+    let w ← parseWords w; let h ← parseHint h
+    pure ("ok " ++ showLimbs (de h w) ++ " ; " ++ showKinds (deHintsU w),
+          "ok " ++ showLimbs (ofNat (valBase W w)) ++ " ; " ++ oHintsU w.length)
+  | "i.de_hints", [v, w] => do
+    let v ← parseInt v; let w ← parseWords w
+    let m := (match deBigInt v none w with | some x => "ok " ++ showBigInt x | none => "err") ++ " ; " ++ showKinds (deHintsI v w)
+    let o := (match oSign v with
+      | some s => "ok " ++ showBigInt (BigInt.ofInt (signedVal s (valBase W w)))
+      | none => "err") ++ " ; " ++ oHintsI v w.length
+    pure (m, o)
+  | "i.de_hints", [v, w, h] => do
+    let v ← parseInt v; let w ← parseWords w; let h ← parseHint h
+    let m := (match deBigInt v h w with | some x => "ok " ++ showBigInt x | none => "err") ++ " ; " ++ showKinds (deHintsI v w)
+    let o := (match oSign v with
+      | some s => "ok " ++ showBigInt (BigInt.ofInt (signedVal s (valBase W w)))
+      | none => "err") ++ " ; " ++ oHintsI v w.length
+    pure (m, o)
+  | "sign.de_hints", [v] => do
+    let v ← parseInt v
+    let sh : Option Sign → String := fun r => match r with | some s => "ok " ++ showSign s | none => "err"
+    pure (sh (deSign v) ++ " ; i8", sh (oSign v) ++ " ; i8")
   | "u.de_tl", [l] => do
     let l ← parseTokList l
     let sh : Option (List Nat) → String := fun r => match r with | some d => "ok " ++ showLimbs d | none => "err"
